@@ -135,7 +135,10 @@ type ssSess struct {
 	init       string // cfg.RO: the served tree before the first request
 }
 
-func ssOpen(cfg ssCfg, root string) (*ssSess, error) {
+func ssOpen(cfg ssCfg, root string) (*ssSess, error) { return ssOpenTr(cfg, root, "", nil) }
+
+// ssOpenTr is ssOpen on the transport tr (ssStartTr; feed: the whole input of the "buf" transport).
+func ssOpenTr(cfg ssCfg, root, tr string, feed []byte) (*ssSess, error) {
 	s := &ssSess{cfg: cfg, root: root, tree: filepath.Join(root, "t"), trk: newSSTrack(cfg)}
 	if cfg.Kind == "os" {
 		// the process directory (<root>/cwd, where relative paths made by mutations land) starts empty too:
@@ -156,7 +159,7 @@ func ssOpen(cfg ssCfg, root string) (*ssSess, error) {
 		s.fs.closeErrPct, s.fs.closeErrSeed = cfg.CloseErr, cfg.CloseErrSeed
 	}
 	var err error
-	s.srv, err = ssStart(cfg, s.tree, s.fs)
+	s.srv, err = ssStartTr(cfg, s.tree, s.fs, tr, feed)
 	return s, err
 }
 
@@ -295,6 +298,12 @@ func ssRunC07(ref *ssRef, m ssMut, root string) ssResult {
 	stream := m.apply(ref.Frames)
 	j := ssJudge(stream)
 	res.EndClass = j.End
+	pipe := m.Pipe || m.Tr == "buf" // the whole stream at once
+	trName := m.Tr
+	if trName == "" {
+		trName = "conn"
+	}
+	res.Hist = append(res.Hist, "transport/"+trName)
 	// A: frames identical to the reference, in place; B: the well-formed rest
 	nA, off := 0, 0
 	for nA < len(j.Reqs) && nA < len(ref.Frames) && j.Reqs[nA].Off == off && bytes.Equal(stream[off:off+j.Reqs[nA].Len], ref.Frames[nA]) {
@@ -303,6 +312,31 @@ func ssRunC07(ref *ssRef, m ssMut, root string) ssResult {
 	}
 	res.NA, res.NB = nA, len(j.Reqs)-nA
 	hard := j.End == "badlen" || j.End == "unknown-type" || j.End == "short-body"
+	// what the stream holds BEHIND the malformed packet (the packet: the bad length word, resp. the whole frame
+	// whose body does not decode): none of it may be acted upon, on whatever transport
+	malEnd := len(stream)
+	switch j.End {
+	case "badlen":
+		malEnd = j.EndOff + 4
+	case "unknown-type", "short-body":
+		malEnd = j.EndOff + 4 + int(binary.BigEndian.Uint32(stream[j.EndOff:]))
+	}
+	if hard {
+		behind := "nothing"
+		if malEnd < len(stream) {
+			behind = "bytes-that-are-no-request"
+			if bj := ssJudge(stream[malEnd:]); len(bj.Reqs) > 0 {
+				behind = "well-formed-requests"
+				for _, q := range bj.Reqs {
+					if !ssHarmless[q.Kind] {
+						behind = "well-formed-requests-that-modify"
+						break
+					}
+				}
+			}
+		}
+		res.Hist = append(res.Hist, "behind-the-malformed-packet/"+trName+"/"+j.End+"/"+behind)
+	}
 	if p, esc := ssEscapes(cfg, root, filepath.Join(root, "t"), stream, j.Reqs); esc {
 		// containment: the mutation made a request name a path outside the scratch directory
 		res.Hist = append(res.Hist, lib.NotRunBucket)
@@ -317,10 +351,19 @@ func ssRunC07(ref *ssRef, m ssMut, root string) ssResult {
 		}
 		return fmt.Sprintf("%s/%s/%s", k, symptom, j.End)
 	}
-	s, err := ssOpen(cfg, root)
+	var feed []byte
+	if m.Tr == "buf" {
+		feed = stream
+	}
+	s, err := ssOpenTr(cfg, root, m.Tr, feed)
 	if err != nil {
 		res.Findings = append(res.Findings, ssFinding{Key: "tie/server-start", What: err.Error()})
 		return res
+	}
+	send := func(b []byte) {
+		if m.Tr != "buf" { // (the "buf" transport holds the whole stream already)
+			s.srv.Send(b)
+		}
 	}
 	answered := 0
 	// "pure": every request so far that differs from the reference run is of a kind that changes
@@ -370,9 +413,11 @@ func ssRunC07(ref *ssRef, m ssMut, root string) ssResult {
 		}
 	}
 	dead := false
+	var stateDiff *ssFinding // the state oracle's finding (reported at the end, after its diagnosis)
+	var stateWant string
 	eff := newSSEffect(s)
 	var got []wire.Pkt // the replies, in order (sequential mode)
-	if !m.Pipe {
+	if !pipe {
 		for i, q := range j.Reqs {
 			before := ""
 			if q.Soft {
@@ -394,17 +439,17 @@ func ssRunC07(ref *ssRef, m ssMut, root string) ssResult {
 		}
 	}
 	rest := stream[j.EndOff:]
-	if m.Pipe {
+	if pipe {
 		rest = stream
 	}
 	switch {
 	case dead:
 		s.srv.CloseInput()
 	case !hard:
-		s.srv.Send(rest)
+		send(rest)
 		s.srv.CloseInput()
 	default:
-		s.srv.Send(rest)
+		send(rest)
 		// the server must stop on its own after a malformed packet.  A healthy server does so within
 		// milliseconds; when the short deadline expires the case waits on (stream still open) up to the
 		// hang deadline before it is judged, so that a starved machine is not mistaken for a server
@@ -425,7 +470,7 @@ func ssRunC07(ref *ssRef, m ssMut, root string) ssResult {
 	if res.Exit {
 		return res
 	}
-	if m.Pipe {
+	if pipe {
 		// accept any prefix (F5), never a wrong, reordered, duplicated or surplus response
 		if len(extra) > len(j.Reqs) {
 			res.Findings = append(res.Findings, ssFinding{Key: malKey("extra-response"), What: "more responses than well-formed requests", Expected: fmt.Sprint(len(j.Reqs)), Actual: fmt.Sprint(len(extra))})
@@ -446,13 +491,14 @@ func ssRunC07(ref *ssRef, m ssMut, root string) ssResult {
 			want = ref.States[nA-1]
 		}
 		if got := s.state(); got != want {
-			res.Findings = append(res.Findings, ssFinding{Key: malKey("state-changed-by-malformed"), What: fmt.Sprintf("after the run the served files / handler log differ from the reference run cut before the malformed packet (stream end class %q)", j.End),
-				Expected: ssDiffText(want, got, "-"), Actual: ssDiffText(got, want, "+")})
+			stateDiff = &ssFinding{Key: malKey("state-changed-by-malformed"), What: fmt.Sprintf("after the run the served files / handler log differ from the reference run cut before the malformed packet (stream end class %q, transport %s)", j.End, trName),
+				Expected: ssDiffText(want, got, "-"), Actual: ssDiffText(got, want, "+")}
+			stateWant = want
 		}
 	}
 	// effect of frames that carry bytes after the last field of their request: those bytes mean nothing —
 	// the stream re-encoded without them must be answered the same and leave the same files / handler log
-	if canon, changed, first := ssCanonical(stream, j.Reqs); changed && !m.Pipe && !dead && !cfg.InMem && len(got) == len(j.Reqs) {
+	if canon, changed, first := ssCanonical(stream, j.Reqs); changed && !pipe && !dead && !cfg.InMem && len(got) == len(j.Reqs) {
 		res.Hist = append(res.Hist, "trailing-bytes-in-dispatched-frame/"+first)
 		var reps []wire.Pkt
 		var final, cstate string
@@ -474,7 +520,7 @@ func ssRunC07(ref *ssRef, m ssMut, root string) ssResult {
 		default:
 			res.Hist = append(res.Hist, "trailing-bytes/compared-with/a-second-run-of-the-re-encoded-stream")
 			final = s.effState() // (before the second run re-creates the tree)
-			reps, cstate, ok = ssRunCanon(cfg, root, canon, rest, &res)
+			reps, cstate, ok = ssRunCanon(cfg, root, m.Tr, canon, rest, &res)
 		}
 		if ok {
 			for i, rep := range reps {
@@ -491,7 +537,58 @@ func ssRunC07(ref *ssRef, m ssMut, root string) ssResult {
 			}
 		}
 	}
+	if stateDiff != nil {
+		// WHAT was acted upon — the malformed packet itself, or what the stream holds behind it?  The same
+		// stream cut right behind the malformed packet is run on a fresh server (same transport): when that
+		// leaves the expected state, the packet was refused all right and the server went on to execute
+		// what followed it.
+		if hard && malEnd < len(stream) && !res.Exit {
+			if st, ok := ssRunCutBehind(cfg, root, m.Tr, pipe, stream[:malEnd], j, &res); ok && st == stateWant {
+				stateDiff.Key = fmt.Sprintf("%s/requests-behind-malformed-executed/%s", k, j.End)
+				stateDiff.What = fmt.Sprintf("the server went on serving behind a malformed packet (stream end class %q, transport %s): the same stream cut right behind that packet leaves the served files / handler log as the reference run cut before it does, the whole stream does not — the %d bytes that follow the packet were acted upon", j.End, trName, len(stream)-malEnd)
+			}
+		}
+		res.Findings = append(res.Findings, *stateDiff)
+	}
 	return res
+}
+
+// ssRunCutBehind runs cut — a judged stream that ends with its malformed packet — on a fresh server of the
+// same configuration and transport (the well-formed requests one at a time, each reply read, then the
+// malformed packet; pipe: all at once), ends the input and returns the state Serve left.
+func ssRunCutBehind(cfg ssCfg, root, tr string, pipe bool, cut []byte, j ssJudged, res *ssResult) (string, bool) {
+	var feed []byte
+	if tr == "buf" {
+		feed = cut
+	}
+	s, err := ssOpenTr(cfg, root, tr, feed)
+	if err != nil {
+		res.Findings = append(res.Findings, ssFinding{Key: "tie/server-start", What: err.Error()})
+		return "", false
+	}
+	switch {
+	case tr == "buf":
+	case pipe:
+		s.srv.Send(cut)
+	default:
+		for _, q := range j.Reqs {
+			s.srv.Send(cut[q.Off : q.Off+q.Len])
+			if _, err := s.srv.Recv(ssDlHang()); err != nil {
+				res.Exit, res.Slow = err == errSSTimeout, err == errSSTimeout
+				s.srv.CloseInput()
+				return "", false
+			}
+		}
+		s.srv.Send(cut[j.EndOff:])
+	}
+	s.srv.CloseInput()
+	var tmp ssResult
+	s.finish(&tmp) // the release oracles of this run are those of the cut stream's own case
+	if tmp.Exit {
+		res.Exit, res.Slow = true, true
+		return "", false
+	}
+	return s.state(), true
 }
 
 func ssFirstSlack(reqs []ssReq) int {
@@ -1021,6 +1118,9 @@ func (j *ssPJob) class() string {
 	cl := j.Kind + "/" + j.Cfg.Kind
 	switch {
 	case j.Mut != nil:
+		if j.Mut.Tr != "" { // a transport of its own is a class of its own: what hangs there says nothing about the others
+			cl = j.Kind + "/" + j.Cfg.Kind + "-" + j.Mut.Tr
+		}
 		cl += "/" + j.Mut.Kind
 	case j.End != nil:
 		cl += "/" + j.End.Mode
